@@ -244,6 +244,30 @@ def compare(program, live_fi, ref_fi, effects=default_effects, **kw):
                 break
             except AnalysisError:
                 continue
+    if r["verdict"] != "equivalent":
+        # The live function may have delegated part of its work to another
+        # function of the repository that the reference spells out in place
+        # (a shared helper that exists anyway).  Functions the reference does
+        # not mention are executed inline; the result is used only if it
+        # makes the two equivalent.
+        idents = set()
+        for n in ast.walk(ref_fi.node):
+            if isinstance(n, ast.Attribute):
+                idents.add(n.attr)
+            elif isinstance(n, ast.Name):
+                idents.add(n.id)
+
+        def inl(f):
+            nm = getattr(f, "name", "")
+            return nm not in idents and not nm.startswith("__") \
+                and sum(1 for _ in ast.walk(f.node)) < 400
+        kw2 = dict(kw, live_kw=dict(kw["live_kw"], inline=inl))
+        try:
+            r2 = _compare(program, live_fi, ref_fi, effects=effects, **kw2)
+            if r2["verdict"] == "equivalent":
+                r = r2
+        except Exception:
+            pass
     r["ref_fi"] = ref_fi
     r["live_fi"] = live_fi
     if r["verdict"] == "violation":
